@@ -24,7 +24,7 @@ def run(tier, seed, only=None):
            dp.StrConverter.init, dp.StrConverter.validate, core.Attribute.validate, core.Required.validate)
     T = 60 if tier == 'quick' else 240
     specs = [dict(module='checks.h_c08', fn=f, cond_timeout=T, path_timeout=T / 2) for f in
-             ('int_validate', 'int_validate_from_str', 'real_validate', 'str_validate', 'str_validate_type')]
+             ('int_validate', 'int_validate_from_str', 'int_validate_str', 'real_validate', 'str_validate', 'str_validate_type')]
     from checks import h_c08_attr
     specs += [dict(module='checks.h_c08_attr', fn=f, cond_timeout=T, path_timeout=T / 2, setup='setup') for f in h_c08_attr.HARNESSES]
     if only:
